@@ -50,6 +50,10 @@ var c17Shapes = []podShape{
 	{name: "reserved-selector", cpu: 2500, mods: []func(*corev1.Pod){sel(v1.CapacityTypeLabelKey, "reserved")}},
 	{name: "ct-notin-spot-large", cpu: 5000, mods: []func(*corev1.Pod){requiredTerms([]corev1.NodeSelectorRequirement{nsr(v1.CapacityTypeLabelKey, corev1.NodeSelectorOpNotIn, "spot")})}},
 	{name: "prefers-zone-b", cpu: 2500, mods: []func(*corev1.Pod){preferred(10, nsr(corev1.LabelTopologyZone, corev1.NodeSelectorOpIn, "b"))}},
+	// a pod that fits both types, and one that NARROWS the NodeClaim it joins to a single type after that NodeClaim
+	// reserved through the offerings of both (so some same-id reservations must be handed back, others kept)
+	{name: "mid-large", cpu: 3500},
+	{name: "type-l-selector", cpu: 3000, mods: []func(*corev1.Pod){sel(corev1.LabelInstanceTypeStable, "l")}},
 }
 
 func resCap(cat []world.ITSpec) map[string]int {
@@ -143,7 +147,7 @@ func init() {
 		r.Rule = fmt.Sprintf("reservation part: catalogs %v with reserved offerings (ids shared across instance types and NodePools, differing advertised capacities, one exhausted) x %d NodePool sets x all pod batches of <=%d from %d shapes x 2 preference policies, feature gate on, provisioning (strict) mode, candidate-evaluation orders with 2 workers and <=1 deviation; "+
 			"oracle on the created NodeClaims: holders per reservation id <= min advertised capacity; a holder admits only reserved launches with exactly its ids; a non-holder admits no reserved launch; no panic from the manager's guards. "+
 			"non-trivial = distinct (case, outcome) with at least one NodeClaim holding a reservation or a deferred pod", cats, len(c17Pools), bsz, len(c17Shapes))
-		r.Assumptions = []string{"DRA half of the statement (exclusive devices, shared counters) is NOT covered by this check: see MANIFEST level_note", "fallback mode (used by disruption simulations only) is exercised through C06/C18 worlds, not here"}
+		r.Assumptions = []string{"fallback mode (used by disruption simulations only) is exercised through C06/C18 worlds, not here"}
 		savedP, savedS, savedC := poolCfgs, podShapes, catalogs
 		defer func() { poolCfgs, podShapes, catalogs = savedP, savedS, savedC }()
 		poolCfgs, podShapes, catalogs = c17Pools, c17Shapes, c17Catalogs
@@ -190,5 +194,7 @@ func init() {
 			noteDiverged(l, ex, "prefix")
 			l.Transitions += int64(ex.Points)
 		})
+		poolCfgs, podShapes, catalogs = savedP, savedS, savedC
+		c17DRA(r)
 	})
 }
